@@ -47,7 +47,11 @@ func genFunction(ld *Loader, specs *Specs, fn *ssa.Function, ct *Contract, opts 
 		}
 	}()
 	for _, b := range fn.Blocks {
-		vc.Instrs += len(b.Instrs)
+		for _, in := range b.Instrs {
+			if _, dbg := in.(*ssa.DebugRef); !dbg {
+				vc.Instrs++
+			}
+		}
 	}
 	if fn.Blocks == nil {
 		vc.GenErr = "function has no body"
@@ -150,6 +154,14 @@ func genFunction(ld *Loader, specs *Specs, fn *ssa.Function, ct *Contract, opts 
 	e.oblige(&Obl{Name: tr.label + "#vacuity:requires-sat", Kind: "vacuity", Cond: tTrue, Goal: tTrue, Vac: true, Fn: tr.label, Props: tr.propsOf()})
 	if len(rcs) > 0 {
 		e.oblige(&Obl{Name: tr.label + "#vacuity:return-reachable", Kind: "vacuity", Cond: or(rcs...), Goal: tTrue, Vac: true, Fn: tr.label, Props: tr.propsOf()})
+	}
+	if ct != nil {
+		// an in-body assert that matches no call site asserts nothing: that is a broken contract, not a pass
+		for _, as := range ct.Asserts {
+			if !g.assertHit[as] {
+				g.specErrors = append(g.specErrors, fmt.Sprintf("%s: assert %s call %s #%d (%s) matches no call site", tr.label, as.When, as.Callee, as.Ordinal, as.Clause.Label))
+			}
+		}
 	}
 	vc.Prefix = e.prefix()
 	vc.Obls = e.obls
